@@ -41,6 +41,12 @@ def sortedNat : List Nat → Bool
   | [_] => true
   | a :: b :: l => decide (a < b) && sortedNat (b :: l)
 
+/-- slot keys of the unbonding queue strictly ascending (completion time, then height) -/
+def ubqSortedB : List ((Int × Int) × List Nat) → Bool
+  | [] => true
+  | [_] => true
+  | a :: b :: l => decide (a.1.1 < b.1.1 ∨ (a.1.1 = b.1.1 ∧ a.1.2 < b.1.2)) && ubqSortedB (b :: l)
+
 def hasCandEntry (s : App) (v : Val) : Bool := cand v && decide (occ v.op s.index > 0)
 
 end App
@@ -75,7 +81,8 @@ def Pre (s : App) (c : CSet) : Bool :=
   s.ubq.all (fun q => q.2.all (fun op => match s.getVal op with
     | some v => v.ubTime == q.1.1 && v.ubHeight == q.1.2 && v.status == .unbonding && (v.shares != 0 || v.tokens == 0)
     | none => false)) &&
-  nodupNat (s.ubq.flatMap (·.2)) && decide (s.params.unbond > 0) &&
+  nodupNat (s.ubq.flatMap (·.2)) &&
+  (decide (s.params.unbond > 0) && ubqSortedB s.ubq && s.vals.all (fun v => v.shares != 0 || v.tokens == 0)) &&
   -- 10. the records are stored in operator order, and each pool covers the tokens of the validators of its kind
   (sortedNat (s.vals.map (·.op)) && decide (sumF nbTok s.vals ≤ s.notBonded)) &&
   decide (sumF bTok s.vals ≤ s.bonded)
